@@ -48,6 +48,9 @@ def index_census(chk, lim=None, audited=None, floor=4, what='index/offset'):
         # any other place: every value it returns must be shown in range, for all inputs of its parameter types
         st = State()
         args = [I.sym_value(f['locals'][i + 1], 'arg%d' % i, st) for i in range(f['argc'])]
+        for i, a in enumerate(args):
+            if isinstance(a, BV):
+                st.rng.setdefault('arg%d' % i, [(0, (1 << a.w) - 1)])      # an integer parameter: its type's range, so comparisons can narrow it
         outs = I.run(f['name'], args, st)
         chk.count('function-instances')
         bad = []
